@@ -45,6 +45,18 @@ def _cfg():
 
 @st.composite
 def _history(draw, tier):
+    if chance(draw, 1, 7):
+        # the flatten family of C16 (its generator and builder) under a history: the flattened element is selected and / or
+        # compared, the query object is evaluated fully, partially and again
+        from . import c16
+        ops = []
+        for _ in range(draw(st.integers(2, 5))):
+            if chance(draw, 1, 3):
+                ops.append(["partial", draw(st.integers(0, 3)), draw(st.sampled_from(["close", "drop"]))])
+            else:
+                ops.append(["full"])
+        ops.append(["full"])
+        return {"family": "flatten", "flat": draw(c16.strategy(tier)), "ops": ops, "caching": draw(st.booleans())}
     cfg = _cfg()
     # one history in five is built around a one-to-many join abandoned in the middle of a group of partners
     join_story = chance(draw, 1, 4)
@@ -181,7 +193,67 @@ def _spec_case(case, spec):
             "desc": spec["desc"], "quant": spec["quant"], "split_top": spec["split_top"], "dom_kind": "list"}
 
 
+_END = object()
+
+
+def _check_flatten(case) -> Outcome:
+    from entity_query_language.cache_data import enable_caching, disable_caching
+    from . import c16
+    flat = case["flat"]
+    objs = build_entities(flat["ents"])
+    before = snapshot(objs)
+    classes = ["family_flatten", "caching_on" if case["caching"] else "caching_off", "flatten_select_" + flat["select"],
+               "flatten_cond_" + flat["cond_kind"]]
+    (enable_caching if case["caching"] else disable_caching)()
+    nontrivial = False
+    try:
+        try:
+            q2, extract2 = c16.build(flat, objs)
+            want = extract2(list(q2.evaluate()))            # the fresh twin, evaluated exactly once
+            q, extract = c16.build(flat, objs)
+        except Exception as e:
+            return fail("exception", f"flatten family, fresh twin: {type(e).__name__}: {e}", classes=classes)
+        wset = {ident(r) for r in want}
+        disturbed = False
+        fulls = 0
+        for step, op in enumerate(case["ops"]):
+            label = f"flatten family ({c16.render(flat)['query']}), step {step} {op}"
+            try:
+                if op[0] == "partial":
+                    it = q.evaluate()
+                    for _ in range(op[1]):
+                        if next(it, _END) is _END:
+                            break
+                    if op[2] == "close":
+                        it.close()
+                    else:
+                        del it
+                        gc.collect()
+                    disturbed = True
+                    if "partial" not in classes:
+                        classes.append("partial")
+                    continue
+                got = extract(list(q.evaluate()))
+            except Exception as e:
+                return fail("exception", f"{label}: {type(e).__name__}: {e}; earlier ops {case['ops'][:step]}",
+                            classes=classes, nontrivial=nontrivial)
+            if {ident(r) for r in got} != wset:
+                return fail("history_changes_result", f"{label}: got {show_rows(got)} but a fresh twin evaluated once gives "
+                                                      f"{show_rows(want)}; earlier ops {case['ops'][:step]}",
+                            classes=classes, nontrivial=nontrivial)
+            fulls += 1
+            if (disturbed or fulls >= 2) and want:
+                nontrivial = True
+        if snapshot(objs) != before:
+            return fail("object_modified", "a dataset object's attributes changed during the history", classes=classes)
+    finally:
+        enable_caching()
+    return Outcome(True, nontrivial=nontrivial, classes=classes, features=list(classes))
+
+
 def check(case) -> Outcome:
+    if case.get("family") == "flatten":
+        return _check_flatten(case)
     from entity_query_language.cache_data import enable_caching, disable_caching
     objs = build_entities(case["ents"])
     before = snapshot(objs)
@@ -328,6 +400,9 @@ def check(case) -> Outcome:
 
 
 def render(case):
+    if case.get("family") == "flatten":
+        from . import c16
+        return {"family": "flatten", **c16.render(case["flat"]), "caching": case["caching"], "history": case["ops"]}
     return {"entities": [f"#{i}:{r['cls']}(a={r['a']},b={r['b']},s={r['s']!r})" for i, r in enumerate(case["ents"])],
             "doms": case["doms"], "caching": case["caching"],
             "equal_comparisons_are_one_object_in_all_queries": bool(case.get("share_comparisons")),
